@@ -5,11 +5,13 @@ package main
 import (
 	"encoding/json"
 	"fmt"
+	"math/rand"
 	"os"
 	"strings"
 	"sync"
 	"time"
 
+	"github.com/IrineSistiana/mosproxy/internal/zzverif/vtrace"
 	"github.com/miekg/dns"
 )
 
@@ -455,4 +457,95 @@ func modeC08(thorough bool, only string) {
 			step{0, 1, p3}, step{ms(6300), 8, p3}, step{ms(6900), 4, p3})
 	}
 	par(len(scs), func(i int) { runTimed(scs[i].tag, scs[i].o, scs[i].prep, scs[i].steps) })
+}
+
+// ---------------------------------------------------------------- C04 / C20: concurrent stress
+func modeC04(thorough bool) {
+	own = vtrace.NewOwn(workdir+"/own.ndjson", 16)
+	defer own.T.Close()
+	in, err := newInst("c04", instOpts{
+		listeners: allListeners,
+		upstreams: map[string]string{"u1": "udp", "u2": "tcp", "u3": "tcp+pipeline"},
+		sets:      map[string][]string{"s1": {"domain:z1.test"}, "s2": {"domain:z2.test"}},
+		rules:     []ruleSpec{{Set: "s1", Forward: "u1"}, {Set: "s2", Forward: "u2"}, {Forward: "u3"}},
+		cacheMem:  48 << 10, // eviction pressure
+	})
+	if err != nil {
+		panic(err)
+	}
+	defer in.close()
+	nNames, workers, per := 300, 48, 110
+	if thorough {
+		nNames, workers, per = 1500, 96, 600
+	}
+	names := make([]string, nNames)
+	for i := range names {
+		z := []string{"z1", "z2", "z3"}[i%3]
+		lab := fmt.Sprintf("r0t%dd%d", 2+i%3, []int{0, 3, 9, 25}[i%4])
+		switch i % 17 {
+		case 5:
+			lab = "r3t20d5fA"
+		case 11:
+			lab += "fM"
+		}
+		names[i] = fmt.Sprintf("n%d.%s.%s.test.", i, lab, z)
+	}
+	// a reply that arrives after the response timeout of one-at-a-time connections (6 s), on the tcp upstream
+	late := []string{"late1.r0t9d6300.z2.test.", "late2.r0t9d6300.z2.test."}
+	go func() {
+		for _, n := range late {
+			in.send("udp", "127.0.0.1", mkq(n), 8*time.Second, nil)
+		}
+	}()
+	// entries that enter their refresh window (last quarter of 8 s) while the stress is still running
+	hot8 := make([]string, 16)
+	for i := range hot8 {
+		hot8[i] = fmt.Sprintf("h%d.r0t8d%d.%s.test.", i, 5+i%20, []string{"z1", "z2", "z3"}[i%3])
+	}
+	t0 := time.Now()
+	par(len(hot8), func(i int) { in.send("udp", "", mkq(hot8[i]), 4*time.Second, nil) })
+	par(workers, func(w int) {
+		rng := rand.New(rand.NewSource(seed*131 + int64(w)))
+		for k := 0; k < per; k++ {
+			n := names[rng.Intn(len(names))]
+			if rng.Intn(3) == 0 {
+				n = names[rng.Intn(20)] // hot names: cache hits, refresh windows
+			}
+			if rng.Intn(9) == 0 {
+				n = hot8[rng.Intn(len(hot8))] // kept hot so that the frequency based eviction leaves them alone
+			}
+			q := mkq(n)
+			q.id = uint16(rng.Intn(65536))
+			q.typ = []uint16{dns.TypeA, dns.TypeA, dns.TypeAAAA}[rng.Intn(3)]
+			if strings.HasPrefix(n, "h") {
+				q.typ = dns.TypeA
+			}
+			q.opt = rng.Intn(2) == 0
+			if rng.Intn(8) == 0 {
+				q.name = strings.ToUpper(q.name[:3]) + q.name[3:]
+			}
+			lst := allListeners[rng.Intn(len(allListeners))]
+			in.send(lst, "", q, 8*time.Second, nil)
+			if thorough || time.Since(t0) < 6500*time.Millisecond {
+				continue
+			}
+		}
+	})
+	// keep the tcp upstream busy until after the late replies arrived, so that a connection wrongly kept is reused
+	for time.Since(t0) < 7400*time.Millisecond {
+		par(24, func(w int) {
+			if w < 8 {
+				q := mkq(fmt.Sprintf("%s.r0t5d0.z2.test.", uniq()))
+				in.send("tcp", "", q, 3*time.Second, nil)
+				return
+			}
+			if time.Since(t0) > 6100*time.Millisecond { // refresh window of the 8 s entries
+				in.send(allListeners[w%len(allListeners)], "", mkq(hot8[(w*7+int(time.Since(t0)/time.Millisecond))%len(hot8)]), 3*time.Second, nil)
+			} else {
+				in.send("udp", "", mkq(fmt.Sprintf("%s.r3t20d3fA.z1.test.", uniq())), 3*time.Second, nil)
+			}
+		})
+		time.Sleep(25 * time.Millisecond)
+	}
+	time.Sleep(300 * time.Millisecond)
 }
